@@ -27,11 +27,11 @@ Theorem C13_area_is_mass_matrix_area : forall v i j k,
 Proof. exact cross_area_is_tri_area. Qed.
 Print Assumptions C13_area_is_mass_matrix_area.
 
-(* triangle normals: unit, orthogonal to the triangle, following the winding (guard inactive) *)
+(* triangle normals: unit, orthogonal to the triangle, following the winding, for every triangle of non-zero area (any length unit) *)
 Theorem C13_tria_normals_unit_orthogonal_winding : forall v i j k,
   let '(p0, p1, p2) := tri_pts Rops v (i, j, k) in
   let n := cross Rops (vsub Rops p1 p0) (vsub Rops p2 p0) in
-  Rltb (norm Rops n) (eps52 Rops) = false ->
+  0 < norm Rops n ->
   dot Rops (tria_normal Rops v (i, j, k)) (tria_normal Rops v (i, j, k)) = 1 /\
   dot Rops (tria_normal Rops v (i, j, k)) (vsub Rops p1 p0) = 0 /\
   dot Rops (tria_normal Rops v (i, j, k)) (vsub Rops p2 p0) = 0 /\
